@@ -18,9 +18,9 @@ fn main() {
     }
     chrono_verif_harness::quiet_panics();
     let ctx = Ctx { tier, seed, out };
-    let summary = match workload.as_str() {
-        "C01" => w::c01::run(&ctx),
-        other => { eprintln!("unknown workload {}", other); std::process::exit(2); }
+    let summary = match w::dispatch(&workload, &ctx) {
+        Some(s) => s,
+        None => { eprintln!("unknown workload {} (known: {:?})", workload, w::NAMES); std::process::exit(2); }
     };
     println!("SUMMARY {}", summary);
 }
